@@ -24,7 +24,8 @@ ROOT = os.path.dirname(os.path.dirname(os.path.dirname(os.path.abspath(__file__)
 SCRATCH = os.path.join(ROOT, ".scratch")
 
 INVARIANTS = ["C01_NoFalseAlarm", "C02a_MustReject", "C02b_EveryIndexReachable", "C02c_NonRandomFirst",
-              "C02d_AcceptedIsWeak", "C02e_IgnorableAcceptsAll", "Lemma_SatOrder", "Lemma_DrawAbstraction"]
+              "C02d_AcceptedIsWeak", "C02e_IgnorableAcceptsAll", "Lemma_SatOrder", "Lemma_DrawAbstraction",
+              "Lemma_StretchClosure"]
 
 CFG = """SPECIFICATION Spec
 CONSTANTS
@@ -92,8 +93,17 @@ def build_rows(rep, tier):
 
 def run_mutants(rep, tier="quick", muts=("union_first_only", "seq_len_minus_1")):
     """Spec mutants of the generated check must be rejected by the design invariants."""
+    os.makedirs(SCRATCH, exist_ok=True)
     for m in muts:
+        cache = os.path.join(SCRATCH, f"mutant-{m}-{_spec_hash(tier)}.json")
+        if os.path.exists(cache):
+            st = json.load(open(cache))
+            rep.add("spec_mutants_killed")
+            rep.cov.setdefault("spec_mutants", []).append({"mutant": m, "rejected_by": st["violated"], "cached": True})
+            continue
         res = run_model(rep, tier, mut=m)
+        if res.violated:
+            json.dump({"violated": res.violated}, open(cache, "w"))
         if not res.violated:
             rep.machinery(f"spec mutant {m} is not rejected by any invariant: vacuous model")
         rep.add("spec_mutants_killed")
@@ -241,6 +251,35 @@ def _replay_row(w, row, objs, real, jmap, confs, lcm, opts, out):
             out["samples"].append({"hint": short_hint(h), "real_hint": repr(hint)[:120], "conf": cabs,
                                    "object": short_obj(objs[j]), "accept_mask": verd[j], "spec_code": code[jmap[j]],
                                    "spec_chk_mask": chk[jmap[j]]})
+        # ---- C18: the configuration rewrite equals rewriting the hint by hand ------------------------
+        if "C18" in props and ci in (3, 4) and spi == 0:
+            from beartype import BeartypeConf
+            try:
+                hint_pub = w.hint(row["pub"], 0)
+                conf0 = BeartypeConf()
+                for j in range(n):
+                    x = _fresh(w, objs, real, j)
+                    m2 = 0
+                    for r in draws:
+                        DRAW.value = r
+                        if is_bearable(x, hint_pub, conf=conf0):
+                            m2 |= 1 << r
+                    out["n_calls"] += lcm
+                    if m2 != verd[j]:
+                        _issue(out, "C18", "rewrite_differs", row, j, objs,
+                               f"verdict under the configuration (accept-mask {verd[j]:b}) differs from the verdict of "
+                               f"the hand-rewritten hint {hint_pub!r} under the default configuration ({m2:b})")
+                    if (code[jmap[j]] & 1) and verd[j] != full:
+                        _issue(out, "C18", "rewritten_meaning_rejected", row, j, objs,
+                               "object conforming to the rewritten hint is rejected under the configuration")
+                    if (code[jmap[j]] & 4) and verd[j]:
+                        _issue(out, "C18", "rewritten_meaning_accepted", row, j, objs,
+                               "object that the rewritten hint must reject is accepted under the configuration")
+            except TypeError:
+                pass
+        # ---- stretching: the same verdict classes for long containers -------------------------------
+        if opts.get("stretch") and spi == 0 and h["k"] in ("seq", "quasi") and ci in (1, 2):
+            _stretch(w, row, hint, conf, cabs, objs, real, jmap, idx, code, props, out, opts)
         # ---- the other entry points --------------------------------------------------------------
         if opts.get("entry_points"):
             try:
@@ -313,12 +352,181 @@ def _replay_row(w, row, objs, real, jmap, confs, lcm, opts, out):
                                        {"sp": sp, "entry": name, "exc": type(exc).__name__})
                             else:
                                 cul = getattr(exc, "culprits", ())
-                                okc = bool(cul) and (cul[0] is x2 or cul[0] == repr(x2) or
-                                                     (isinstance(cul[0], str) and objs[j]["k"] == "iter"))
+                                # the object itself, or (objects that cannot be weakly referenced) its repr()
+                                # as beartype's represent_object() renders it (quoted, truncated)
+                                okc = bool(cul) and (cul[0] is x2 or
+                                                     (isinstance(cul[0], str) and repr(x2)[:30] in cul[0]))
                                 if not okc:
                                     _issue(out, "C03", "culprit", row, j, objs,
                                            f"{name}: culprits {cul!r:.120} do not begin with the rejected object")
             out["n_pairs"] += len(todo)
+            if opts.get("viol_confs") and spi == 0 and (row["hid"] + seed) % opts["viol_confs"] == 0:
+                _viol_confs(w, row, hint, cabs, objs, real, jmap, verd, todo, lcm, props, out)
+
+
+_SEQ_CTORS = None
+
+
+def _stretch(w, row, hint, conf, cabs, objs, real, jmap, idx, code, props, out, opts):
+    """Long sequences built from spec-classified items: all good / all bad / one bad index."""
+    import collections
+    from beartype.door import is_bearable
+    ctors = {"list": list, "tuple": tuple, "deque": collections.deque, "USeq": w.USeq}
+    done = 0
+    for j, o in enumerate(objs):
+        if done >= opts.get("stretch_per_row", 3):
+            break
+        ii = idx[jmap[j]]
+        if not (ii & 128) or o["k"] != "cont" or o["cls"] not in ctors or len(o["items"]) < 2:
+            continue
+        bad = [i for i in range(len(o["items"])) if ii >> i & 1]
+        if not (ii & 64) or not bad or 0 in bad:
+            continue
+        items = list(real[j])
+        good, badv = items[0], items[bad[0]]
+        ctor = ctors[o["cls"]]
+        done += 1
+        for n in opts.get("stretch_sizes", (10, 1000)):
+            # all good / all bad
+            xs_good, xs_bad = ctor([good] * n), ctor([badv] * n)
+            for r in (0, 1, n - 1, n, 2 * n + 3, (1 << 32) - 1):
+                DRAW.value = r
+                out["n_calls"] += 2
+                if not is_bearable(xs_good, hint, conf=conf) and "C01" in props:
+                    _issue(out, "C01", "false_alarm_stretched", row, j, objs,
+                           f"sequence of {n} copies of a conforming item rejected for draw {r}")
+                if is_bearable(xs_bad, hint, conf=conf) and "C02" in props:
+                    _issue(out, "C02", "must_reject_accepted_stretched", row, j, objs,
+                           f"sequence of {n} copies of a violating item accepted for draw {r}")
+            if "C02" not in props:
+                continue
+            for p in (0, 1, n // 2, n - 1):
+                lst = [good] * n
+                lst[p] = badv
+                xs = ctor(lst)
+                rej = []
+                for r in range(n):
+                    DRAW.value = r
+                    if not is_bearable(xs, hint, conf=conf):
+                        rej.append(r)
+                out["n_calls"] += n
+                out["nontrivial"].add(f"stretch:{row['hid']}:{o['cls']}:{n}:{p}")
+                if cabs["rnd"]:
+                    if not rej:
+                        _issue(out, "C02", "index_unreachable_stretched", row, j, objs,
+                               f"only item {p} of {n} violates but none of the {n} draw residues rejects")
+                    elif rej != [p]:
+                        out["drift"] += 1
+                else:
+                    if p == 0 and len(rej) != n:
+                        _issue(out, "C02", "nonrandom_not_first_stretched", row, j, objs,
+                               f"is_random=False: item 0 of {n} violates but residues {sorted(set(range(n)) - set(rej))[:5]} accept")
+                    elif 0 < len(rej) < n:
+                        _issue(out, "C02", "nonrandom_draw_dependent_stretched", row, j, objs,
+                               f"is_random=False: verdict depends on the draw (item {p} of {n} violates)")
+
+
+def _viol_confs(w, row, hint, cabs, objs, real, jmap, verd, todo, lcm, props, out):
+    """violation_type family: only the class of the signal changes, never the verdict (C03 / C18)."""
+    import warnings as W
+    from beartype import BeartypeConf, BeartypeViolationVerbosity as VV, beartype as deco
+    from beartype.door import TypeHint, die_if_unbearable, is_bearable
+    from beartype.roar import (BeartypeCallHintParamViolation, BeartypeCallHintReturnViolation,
+                               BeartypeDoorHintViolation)
+    n = w.n
+    ExcT = type(f"ExcT_{n}", (Exception,), {})
+    ExcD = type(f"ExcD_{n}", (Exception,), {})
+    ExcP = type(f"ExcP_{n}", (Exception,), {})
+    ExcR = type(f"ExcR_{n}", (Exception,), {})
+    WarnT = type(f"WarnT_{n}", (UserWarning,), {})
+    dflt = {"die": BeartypeDoorHintViolation, "th_die": BeartypeDoorHintViolation,
+            "param": BeartypeCallHintParamViolation, "ret": BeartypeCallHintReturnViolation}
+    variants = [
+        ("violation_type=Exc", {"violation_type": ExcT}, {k: ExcT for k in dflt}, False),
+        ("violation_type=Warning", {"violation_type": WarnT}, {k: WarnT for k in dflt}, True),
+        ("per-kind types", {"violation_type": ExcT, "violation_door_type": ExcD, "violation_param_type": ExcP,
+                            "violation_return_type": ExcR},
+         {"die": ExcD, "th_die": ExcD, "param": ExcP, "ret": ExcR}, False),
+        ("param only", {"violation_param_type": ExcP}, {**dflt, "param": ExcP}, False),
+        ("verbosity MINIMAL, no colour", {"violation_verbosity": VV.MINIMAL, "is_color": False}, dflt, False),
+        ("verbosity MAXIMAL, colour", {"violation_verbosity": VV.MAXIMAL, "is_color": True}, dflt, False),
+    ]
+    for label, extra, wantcls, is_warn in variants:
+        conf = real_conf(w, cabs, extra)
+        th = TypeHint(hint)
+
+        @deco(conf=conf)
+        def f_param(a: hint):
+            return a
+
+        @deco(conf=conf)
+        def f_ret(a) -> hint:
+            return a
+        for j, _ in todo:
+            x = _fresh(w, objs, real, j)
+            for r in range(lcm):
+                want = bool(verd[j] >> r & 1)
+                DRAW.value = r
+                x2 = _fresh(w, objs, real, j) if objs[j]["k"] == "iter" else x
+                got0 = is_bearable(x2, hint, conf=conf)
+                out["n_calls"] += 1
+                if got0 != want:
+                    for pr in ("C03", "C18"):
+                        if pr in props:
+                            _issue(out, pr, "verdict_changes_with_violation_options", row, j, objs,
+                                   f"{label}: is_bearable says {got0}, default configuration says {want} (draw {r})")
+                    continue
+                if "C03" not in props:
+                    continue
+                for name in ("die", "th_die", "param", "ret"):
+                    DRAW.value = r
+                    x2 = _fresh(w, objs, real, j) if objs[j]["k"] == "iter" else x
+                    exc, res = None, None
+                    with W.catch_warnings(record=True) as ws:
+                        W.simplefilter("always")
+                        try:
+                            if name == "die":
+                                res = die_if_unbearable(x2, hint, conf=conf)
+                            elif name == "th_die":
+                                res = th.die_if_unbearable(x2, conf=conf)
+                            elif name == "param":
+                                res = f_param(x2)
+                            else:
+                                res = f_ret(x2)
+                        except Exception as ex:   # noqa
+                            exc = ex
+                    out["n_calls"] += 1
+                    if want:
+                        if exc is not None or ws:
+                            _issue(out, "C03", "signal_on_accept", row, j, objs,
+                                   f"{label}/{name}: accepted object but {type(exc).__name__ if exc else ''} "
+                                   f"{[x_.category.__name__ for x_ in ws]} surfaced")
+                        continue
+                    wc = wantcls[name]
+                    if is_warn:
+                        cats = [x_.category for x_ in ws]
+                        if exc is not None or cats != [wc]:
+                            _issue(out, "C03", "warning_conf", row, j, objs,
+                                   f"{label}/{name}: expected exactly one {wc.__name__} warning and the call to proceed; got "
+                                   f"exception {type(exc).__name__ if exc else None}, warnings {[c.__name__ for c in cats]}")
+                        elif name in ("param", "ret") and res is not x2:
+                            _issue(out, "C03", "warning_conf_value", row, j, objs,
+                                   f"{label}/{name}: the call proceeded but returned {res!r:.60} instead of its argument")
+                        elif _ANSI.sub("", str(ws[0].message)).find(repr(hint)) < 0:
+                            _issue(out, "C03", "message_hint", row, j, objs,
+                                   f"{label}/{name}: warning message does not name the hint {hint!r}")
+                    else:
+                        if type(exc) is not wc:
+                            _issue(out, "C03", "wrong_violation_class", row, j, objs,
+                                   f"{label}/{name}: rejection surfaces as {type(exc).__name__ if exc else None}, "
+                                   f"configured {wc.__name__}", {"entry": name, "exc": type(exc).__name__})
+                        else:
+                            msg = _ANSI.sub("", str(exc))
+                            if repr(hint) not in msg:
+                                _issue(out, "C03", "message_hint", row, j, objs,
+                                       f"{label}/{name}: message does not name the hint {hint!r}: {msg[:160]}")
+                            if extra.get("is_color") is False and "\x1b[" in str(exc):
+                                _issue(out, "C03", "colour", row, j, objs, f"{label}/{name}: is_color=False but ANSI in message")
 
 
 def replay(rep, rows_dir, opts, procs=16):
